@@ -174,6 +174,19 @@ def run_class(ctx, M, d, nvals, origin):
                 ctx.violation('TlvModel.encode', 'legal-value-rejected', f'encode raises {enc[2]} on a legal assignment', case)
             continue
         w = enc[1]
+        # ---- the two-phase API into a caller-supplied, dirty buffer at an offset must write the same bytes
+        def two_phase():
+            markers = {}
+            n = obj[1].encoded_length(markers)
+            off = rng.choice([0, 1, 7])
+            buf = bytearray(b'\xaa' * (off + n + 3))
+            obj[1].encode(buf, off, markers)
+            return bytes(buf[:off]), bytes(buf[off:off + n]), bytes(buf[off + n:])
+        tp = impl(two_phase)
+        if tp[0] != 'ok' or tp[1][1] != w or set(tp[1][0]) - {0xaa} or set(tp[1][2]) - {0xaa}:
+            ctx.violation('TlvModel.encode(wire, offset, markers)', 'dirty-buffer-encoding',
+                          'encoding into a caller-supplied buffer at an offset does not write exactly the announced bytes',
+                          {**case, 'fresh': w, 'two_phase': tp[1] if tp[0] == 'ok' else tp[1:]})
         # ---- oracle: announced size, minimality, round trip
         if ln[0] == 'ok' and ln[1] != len(w):
             ctx.violation('TlvModel.encoded_length', 'size-mismatch', f'announced {ln[1]} produced {len(w)}', case)
